@@ -93,8 +93,8 @@ def _inner_frame(tb):
     return '%s:%s' % (f.filename.split('/plinio/')[-1], f.name)
 
 
-def run_net(spec):
-    """returns {'status': 'ok'|'EXC:..', 'layers': [...], ...}"""
+def _prepare(spec):
+    """build, MPS, export (+ optional weight change after the last forward); returns (error_out | None, state)"""
     import warnings
     warnings.filterwarnings('ignore')
     import torch, torch.nn as nn, torch.nn.functional as F
@@ -136,7 +136,68 @@ def run_net(spec):
         out['status'] = 'EXC-export:%s' % type(ex).__name__
         out['where'] = _inner_frame(sys.exc_info()[2])
         out['msg'] = str(ex)[:300]
-        return out
+        return out, None
+    if spec.get('stale'):
+        # the exported model is run once (its weight quantizers record the per-channel min/max of THESE weights), then
+        # its weights change (checkpoint load / last optimizer step) and it is integerized without another forward
+        with torch.no_grad():
+            e(x)
+            sd = {k: v.clone() for k, v in e.state_dict().items()}
+            for n in [n for n in net.order if n.startswith('c') or n in ('fc', 'fc0')]:
+                w = sd[n + '.weight']
+                fac = torch.tensor([rng.choice([0.35, 0.6, 1.7, 2.6]) * rng.uniform(0.9, 1.1) for _ in range(w.shape[0])]).view(-1, *([1] * (w.dim() - 1)))
+                w2 = w * fac + 0.02 * (torch.rand(w.shape) - 0.5)
+                if spec['stale'] == 'inplace':
+                    e.get_submodule(n).weight.copy_(w2)
+                    if e.get_submodule(n).bias is not None:
+                        e.get_submodule(n).bias.mul_(rng.choice([0.5, 1.0, 1.5]))
+                else:
+                    sd[n + '.weight'] = w2
+                    if n + '.bias' in sd:
+                        sd[n + '.bias'] = sd[n + '.bias'] * rng.choice([0.5, 1.0, 1.5])
+            if spec['stale'] != 'inplace':
+                e.load_state_dict(sd)
+    return None, (net, e, x, rng)
+
+
+_PRIOR = []      # (backend, kwargs) of every integerize_arch call made earlier in this process
+
+
+def warm(prior):
+    """re-create the process history of a replayed case: the same integerize_arch calls on a tiny network"""
+    spec = {'seed': 1, 'cin': 1, 'hw': [4, 4], 'wbits': 8, 'abits': 8, 'kwargs': {},
+            'layers': [dict(kind='conv', cout=2, k=[1, 1], stride=[1, 1], pad=[0, 0], dil=[1, 1], dw=False, bias=True, bn=False)],
+            'head': {'pool': True, 'bias': True, 'out': 2}}
+    for be, kw in prior:
+        run_net(dict(spec, backend=be, kwargs=kw, maxpos=1))
+
+
+def run_net(spec):
+    """returns {'status': 'ok'|'EXC:..', 'layers': [...], ...}; with spec['seq'] (list of backend_kwargs) the exported
+    model is integerized once per entry, in this order, in this process: {'status': 'seq', 'seq_results': [...]}"""
+    err, st = _prepare(spec)
+    if err is not None:
+        err['prior_calls'] = list(_PRIOR)
+        return err
+    if spec.get('seq') is not None:
+        res = []
+        for i, kw in enumerate(spec['seq']):
+            s2 = dict(spec, kwargs=kw, seq_index=i)
+            res.append(_observe(s2, st))
+        return {'spec': spec, 'status': 'seq', 'seq_results': res}
+    return _observe(spec, st)
+
+
+def _observe(spec, st):
+    import warnings
+    warnings.filterwarnings('ignore')
+    import torch, torch.nn as nn, torch.nn.functional as F
+    from plinio.methods.mps.quant.quantizers import PACTAct, DummyQuantizer
+    from plinio.methods.mps.quant.backends import Backend, integerize_arch
+    net, e, x, rng = st
+    H, W = spec['hw']
+    out = {'spec': spec, 'status': 'ok', 'layers': [], 'prior_calls': list(_PRIOR)[-40:]}
+    _PRIOR.append((spec['backend'], dict(spec.get('kwargs') or {})))
     be = Backend.MATCH if spec['backend'] == 'MATCH' else Backend.MAUPITI
     try:
         ie = integerize_arch(copy.deepcopy(e), be, dict(spec.get('kwargs') or {})).eval()
@@ -223,7 +284,8 @@ def run_net(spec):
             rec['fq_s_y'] = fl(s_y.flatten())
             rec['clip'] = None if last else fl(Lf.out_quantizer.clip_val.flatten())[0]
             rec['B'] = fl(Bq)
-            rec['target'] = fl((Li.s_w * Li.s_x / Li.s_y).flatten())     # the value the layer approximated (float32 arithmetic)
+            rec['target'] = fl((s_w * s_x / s_y).flatten())              # s_w*s_x/s_y of the CURRENT weights (same float32 arithmetic as the layer)
+            rec['target_layer'] = fl((Li.s_w * Li.s_x / Li.s_y).flatten())   # what the layer says it approximated
             rec['pad_value'] = (float(Li.pad.value) if hasattr(Li, 'pad') and hasattr(Li.pad, 'value') else None)
             rec['pad_pad'] = (list(Li.pad.padding) if hasattr(Li, 'pad') else None)
             rec['sumW'] = fl(Wq.double().flatten(1).sum(1))
@@ -233,8 +295,11 @@ def run_net(spec):
             rec['out_integer'] = bool((Yi == Yi.round()).all())
             rec['out_min'] = float(Yi.min())
             rec['out_max'] = float(Yi.max())
-            rec['scale_bit'] = getattr(Li, 'scale_bit', 16)
-            rec['shift_pos'] = getattr(Li, 'shift_pos', 32)
+            kw = spec.get('kwargs') or {}
+            rec['scale_bit'] = kw.get('scale_bit', 24) if spec['backend'] == 'MATCH' else 16      # declared for THIS call
+            rec['shift_pos'] = kw.get('shift_pos', 24) if spec['backend'] == 'MATCH' else 32
+            rec['attr_scale_bit'] = getattr(Li, 'scale_bit', 16)
+            rec['attr_shift_pos'] = getattr(Li, 'shift_pos', 32)
             if list(Yi.shape) != list(Yf.shape) or list(acc.shape) != list(Yi.shape):
                 rec['shape_mismatch'] = True
                 out['layers'].append(rec)
@@ -255,7 +320,7 @@ def run_net(spec):
                 else:
                     # extremes of the accumulator (saturation on both sides) + random positions
                     srt = torch.argsort(A[c]).tolist()
-                    pos = sorted(set(srt[:3] + srt[-3:] + rng.sample(range(npos), maxpos - 6)))
+                    pos = sorted(set(srt[:3] + srt[-3:] + rng.sample(range(npos), max(0, min(npos, maxpos - 6)))))
                 rec['samples'].append({'c': c, 'pos': pos, 'acc': [A[c, j].item() for j in pos], 'acc_abs': [AA[c, j].item() for j in pos],
                                        'y_int': [YI[c, j].item() for j in pos], 'y_fq': [YF[c, j].item() for j in pos]})
             # whole-tensor oracle quantities (cheap, vectorised): distance of the integer output to the counterpart's code
